@@ -252,9 +252,12 @@ pub fn lie_decode(code: i8) -> (isize, u8) {
     match code {
         31..=49 => (code as isize - 40, 1),
         71..=89 => (code as isize - 80, 2),
+        // a gross lie: about usize::MAX / 2 items announced (the capacity request must be refused by a panic)
+        LIE_HUGE => ((usize::MAX / 2) as isize, 0),
         _ => (code as isize, 0),
     }
 }
+pub const LIE_HUGE: i8 = 120;
 
 /// Replacement sequence of a splice.
 #[derive(Clone, Debug, PartialEq, Eq)]
@@ -451,6 +454,7 @@ impl fmt::Display for Repl {
             Repl::Raws(v) => write!(f, "{}xRaw", v.len()),
             Repl::DrainOf(w, a, b) => write!(f, "v{w}.drain({a}..{b})"),
             Repl::LazyRefs(w, js) => write!(f, "Lazy(v{w}{js:?})"),
+            Repl::Lying(v, d) if *d == LIE_HUGE => write!(f, "{}xWrapper(len=usize::MAX/2)", v.len()),
             Repl::Lying(v, d) => write!(f, "{}xWrapper(len{:+})", v.len(), d),
             Repl::Mismatch(v, k) => write!(f, "{}xWrapper(foreign@{k})", v.len()),
             Repl::MismatchRaw(v, k) => write!(f, "{}xRaw(foreign@{k})", v.len()),
